@@ -204,7 +204,7 @@ def runQuotes (c : Case) : CaseOut :=
   let ok := (c.ops.zip exp).all fun ((_, io), e) => io == e
   { obs := exp, spec := if ok then "ok" else "fail:quoted-literal-spellings-of-one-predicate-fire-differently", tags := ["mode-quotes"] }
 
-def run (c : Case) : CaseOut := Id.run do
+def runSegment (c : Case) : CaseOut := Id.run do
   if c.cfg.any (fun l => l == ["mode", "quotes"]) then return runQuotes c
   let cfg := parseCfg c.cfg
   let bad : CaseOut := { obs := c.ops.map fun _ => [["bad-case"]], spec := "fail:bad-case" }
@@ -280,5 +280,9 @@ def run (c : Case) : CaseOut := Id.run do
       else [] :: weave rest o
   if allOps.length != c.ops.length then tags := addTag tags "statettl-reaper-scenario"
   return { obs := weave allOps obs, spec := spec, cls := cls, tags := tags }
+
+/-- op `reset`: the STATETTL reaper has removed every group (all idle beyond the TTL); the rows that follow start from
+the empty state, i.e. they are a case of their own for the model and the oracle -/
+def run (c : Case) : CaseOut := Proto.withResets runSegment c
 
 end DrvC17
